@@ -1,6 +1,6 @@
 #!/bin/sh
 # usage: tools/tier_all.sh <tier> "<checks>"  -- run the given tier of each check in turn, one line each (rc, wall time)
-cd /verif 2>/dev/null || true
+cd "$(dirname "$(readlink -f "$0")")/.."
 for c in $2; do
   S=$(date +%s); ./check $c --tier $1 > /tmp/tier_${1}_$c.log 2>&1; rc=$?; E=$(date +%s)
   echo "$c $1 rc=$rc wall=$((E-S))s $(grep -v '^KNOWN\|^  ' /tmp/tier_${1}_$c.log | tail -1 | cut -c1-200)"
